@@ -366,7 +366,7 @@ impl<'input> GrmtoolsSectionParser<'input> {
                         let (path_val, j) = self.parse_namespaced(i)?;
                         i = self.parse_ws(j);
                         if let Some(j) = self.lookahead_is("(", i) {
-                            let (arg, j) = self.parse_namespaced(j)?;
+                            let (arg, j) = self.parse_namespaced(self.parse_ws(j))?;
                             i = self.parse_ws(j);
                             if let Some(j) = self.lookahead_is(")", i) {
                                 i = self.parse_ws(j);
